@@ -303,8 +303,21 @@ def run(ctx):
                 if abs(Fraction(got) - com) > Fraction(tol):
                     com_bad = (c, got, float(com))
             m_bad = abs(mid[0].m - mtot) > 1e-13 * mtot
-            if worst > tol or com_bad or m_bad or worst != worst:
-                oracle_fail.append({"system": system, "N": n, "N_active": na, "masses": [x.hex() for x in ms],
+            # "the position-only, position-velocity and acceleration variants agree with one another": the pos-only
+            # inverse must return the positions of the posvel inverse (same recurrence, so to rounding; the start
+            # values of the test-particle slots are the posvel result so that variants which leave slots alone show)
+            var_bad = None
+            back2 = mk(Particle, n, ms, {c: [0.0] * n for c in COMPS})
+            if system == "jacobi":
+                clib.reb_particles_transform_jacobi_to_inertial_pos(back2, mid, src, U(n), U(na))
+            else:
+                getattr(clib, "reb_particles_transform_%s_to_inertial_pos" % system)(back2, mid, U(n), U(na))
+            for c in P3:
+                for i in range(n):
+                    d_ = abs(getattr(back2[i], c) - getattr(back[i], c))
+                    if not d_ <= tol: var_bad = (c, i, getattr(back2[i], c), getattr(back[i], c))
+            if worst > tol or com_bad or m_bad or worst != worst or var_bad:
+                oracle_fail.append({"system": system, "N": n, "N_active": na, "masses": [x.hex() for x in ms], "pos_variant_disagrees": var_bad,
                                     "values": {c: [x.hex() for x in vals[c]] for c in P3 + V3},
                                     "roundtrip_error": worst, "tolerance": tol, "slot0": com_bad, "mass_bad": m_bad})
     # ---- the transformations as the integrators apply them: a zero-length WHFast/SABA step is nothing but
